@@ -7,7 +7,7 @@ ids = sys.argv[1:] or ['C%02d' % i for i in range(1, 21)]
 extra = {'C06': ['C19']}      # dynamic-registration round trip is exercised by C19's check
 results = []
 for pid in ids:
-  for src in sorted(glob.glob(f'/tmp/seed-{pid}-out/m*')):
+  for src in sorted(glob.glob(f'/tmp/seed-{pid}-out/' + os.environ.get('SEED_GLOB', 'm*'))):
     name = f'{pid}-{os.path.basename(src)}'
     dst = os.path.join('/verif/seeded', name)
     os.makedirs(dst, exist_ok=True)
